@@ -30,6 +30,7 @@ structure Dump where
   pres  : String := ""              -- backlog request issued from inside the batch ("" = none)
   pbest : Nat := 0
   pbl   : List Node := []
+  storedAt : List Bool := []        -- per notification: (disconnected) the block was still in the store when the event was received
   pseen : Nat := 0                  -- notifications the sink had taken when the backlog was requested
   pre   : List (Bool × Nat × Nat) := []   -- per notification: block store tip (height, id) the slow sink saw right before taking it
 deriving Repr
@@ -190,6 +191,12 @@ def c02 (c : Cfg) (ev : Ev) (b a : Dump) : List Fail :=
      | .unchanged why => if a.byh != b.byh then [("changed-by-unwanted-batch", why ++ ", yet the stored chain changed")] else []
      | .exactly l why => if a.byh != l then [("valid-batch-not-adopted", why ++ s!" must be stored in full: expected {l}")] else []
      | .free => []
+   | .importReset blocks _ =>
+     -- an import (validated by the importer) appends exactly the imported headers
+     if a.byh != b.byh && a.byh != b.byh ++ blocks then [("changed-without-headers", "an import + reset changed the stored chain otherwise than by appending the imported headers")] else []
+   | .headersFailWrite _ hs =>
+     -- the batch write failed: nothing of the batch may be stored (a checkpoint-failure rollback aside)
+     if a.byh != b.byh && !excusedRollback c hs b.byh a.byh then [("stored-although-write-failed", "the stored chain changed although the batch write failed")] else []
    | _ => if a.byh != b.byh then [("changed-without-headers", "the stored chain changed on an event that carries no headers")] else [])
 
 /-! ### C19 -/
@@ -296,6 +303,19 @@ def replayStrict1 (view : List Nat) : Ntfn → Option (List Nat)
 def replayStrict : List Nat → List Ntfn → Option (List Nat)
   | v, [] => some v
   | v, e :: es => (replayStrict1 v e).bind (fun v' => replayStrict v' es)
+
+/-- a block announced as disconnected is no longer stored: neither at the moment the event is
+received nor afterwards (unless the same block was stored again by a later step of the same event) -/
+def c19DiscStored (readded : List Nat) (a : Dump) : List Fail :=
+  let atRecv := (a.ntf.zip a.storedAt).any (fun p => match p.1 with
+    | .disc .. => p.2
+    | _ => false)
+  let after := a.ntf.any (fun n => match n with
+    | .disc id _ _ => a.byh.contains id && !readded.contains id
+    | _ => false)
+  if atRecv || after then
+    [("disconnected-but-still-stored", s!"a block was announced as disconnected while it is (still) in the block header store: events {repr a.ntf}, stored at receive {a.storedAt}, stored chain {a.byh}")]
+  else []
 
 /-- the handler is not ahead of its events: when the (slow) sink looked at the block header store
 right before taking a disconnected event, the store was as the step that produced that event left
